@@ -349,6 +349,9 @@ def run(prop, tier, replay=None):
         cases, stats = generate(wd, tier, sd)
         phases["generate"] = round(time.time() - t0, 1)
         items = [(c, i + 1, PALETTES[(i + sd) % len(PALETTES)]) for i, c in enumerate(cases)]
+        # every case runs in its own forked process: load the library under test once, here, so that the
+        # children inherit it (the parent itself never calls into it)
+        import cobra.sampling  # noqa: F401
         results = C.isolated_map(drive_case, items, max(2, C.NCPU - 4), wd, "sampler", item_timeout=T["item_timeout"])
         traces = []
         for (case, tid, pal), r in zip(items, results):
